@@ -1,4 +1,4 @@
 Require Import Verif.BQ.BQModel.
 Require Extraction ExtrOcamlBasic.
 Extraction Language OCaml.
-Extraction "bq_model.ml" init step all_done outcome clock threads has_timed_parked err pushed delivered usage_ok spin_idle.
+Extraction "bq_model.ml" init step all_done outcome clock threads has_timed_parked err pushed delivered usage_ok spin_idle lower lower_progs declared calls_ok cores_ok.
